@@ -105,6 +105,31 @@ func runC11(c *Ctx) {
 		}
 	}
 	c.runControl("R11l nil result control (ctl/idxin.Tag)", "idxin.Tag", nilResultIndexed)
+	c.Rule("R11q", "on everything reachable from the parser entry points, a constant number of bytes is cut off relative to the end of a buffer only behind a test of that buffer's length or content", 5)
+	{
+		// what arbitrary input reaches: every registered signer function, the server's sign handler, the verify command
+		var roots []*ssa.Function
+		for _, field := range []string{"Sign", "Verify", "VerifyStream", "Transform", "TestPath", "Fixup"} {
+			for fn := range p.registeredSignerFuncs(field) {
+				roots = append(roots, fn)
+			}
+		}
+		for _, spec := range []string{"server.(*Server).serveSign", "cmdline/verify.verifyOne", "signers.(*Signer).IsSigned", "lib/magic.DetectCompressed", "lib/magic.Detect"} {
+			if f := p.Func(spec); f != nil {
+				roots = append(roots, f)
+			}
+		}
+		within := p.moduleReachAll(roots)
+		c.Note("R11q: %d functions reachable from the parser entry points", len(within))
+		for _, f := range tailCutGuarded(p, within) {
+			if why, ok := c11TailCutExceptions[f.Key]; ok && !f.OK {
+				c.PassTrivial("R11q", f.Key, f.Pos, "exception: "+why)
+				continue
+			}
+			c.Check(f.OK, "R11q", f.Key, f.Pos, "", f.Detail, f.Path...)
+		}
+	}
+	c.runControl("R11q tail cut control (ctl/idxin.Chomp)", "idxin.Chomp", func(cp *Prog) []gFinding { return tailCutGuarded(cp, nil) })
 	c.Rule("R11o", "the xz decoder's dictionary limit is a constant of at most 64 MiB", 2)
 	for _, f := range xzDictionaryCapped(p) {
 		c.Check(f.OK, "R11o", f.Key, f.Pos, "", f.Detail)
@@ -1132,6 +1157,11 @@ func nilHoles(p *Prog) (out []gFinding) {
 // nilResultIndexed implements R11l: a module function that can return (nil, nil) - an empty
 // result together with a nil error - and a caller that tests only the error and then indexes the
 // result at a constant position.
+// c11TailCutExceptions: R11q sites read and found safe by a contract of a dependency, one symbol each.
+var c11TailCutExceptions = map[string]string{
+	"signers/rpm.nevra tail cut#1 of 4 bytes is behind a length test": "rpmutils.NEVRA.String() is fmt.Sprintf(\"%s-%s:%s-%s.%s.rpm\", ...): it always ends in the four bytes that are cut",
+}
+
 func nilResultIndexed(p *Prog) (out []gFinding) {
 	// functions with a success return whose slice result is the nil constant
 	nilOK := map[*ssa.Function]map[int]bool{}
@@ -1408,13 +1438,115 @@ func emptyListIndexed(p *Prog, t *taintEngine) (out []gFinding) {
 			}
 		}
 	}
+	// (c) fields that are assigned the result of a module function which builds its result by appending
+	// to an empty list and never looks at how long it got
+	grown := map[fkey]bool{}
+	var grownLeaf func(v ssa.Value, seen map[ssa.Value]bool) (empty, fixed bool)
+	grownLeaf = func(v ssa.Value, seen map[ssa.Value]bool) (empty, fixed bool) {
+		v = stripConv(v)
+		if v == nil || seen[v] {
+			return false, false
+		}
+		seen[v] = true
+		switch x := v.(type) {
+		case *ssa.Const:
+			return x.IsNil(), false
+		case *ssa.MakeSlice:
+			if k, ok := constInt(x.Len); ok && k == 0 {
+				return true, false
+			}
+			return false, true
+		case *ssa.Slice:
+			// make([]T, 0, n) compiles to a slice of a fresh array
+			if k, ok := constInt(x.High); ok && k == 0 {
+				return true, false
+			}
+			return false, true
+		case *ssa.Phi:
+			for _, e := range x.Edges {
+				e1, f1 := grownLeaf(e, seen)
+				empty, fixed = empty || e1, fixed || f1
+			}
+			return
+		case *ssa.Call:
+			if bi, ok := x.Call.Value.(*ssa.Builtin); ok && bi.Name() == "append" {
+				return grownLeaf(x.Call.Args[0], seen)
+			}
+			return false, true
+		}
+		return false, true
+	}
+	grownResult := func(sc *ssa.Function, idx int) bool {
+		if sc == nil || len(sc.Blocks) == 0 || !p.InModule(pkgOf(sc)) {
+			return false
+		}
+		any := false
+		for _, r := range returnsOf(sc) {
+			if idx >= len(r.Results) {
+				continue
+			}
+			rv := r.Results[idx]
+			if c, ok := rv.(*ssa.Const); ok && c.IsNil() {
+				continue // the error returns
+			}
+			e, f := grownLeaf(rv, map[ssa.Value]bool{})
+			if f || !e {
+				return false
+			}
+			any = true
+			// the function looks at the length of what it returns
+			for _, b := range sc.Blocks {
+				if ifi, ok := b.Instrs[len(b.Instrs)-1].(*ssa.If); ok {
+					if bo, ok := ifi.Cond.(*ssa.BinOp); ok {
+						for _, side := range []ssa.Value{bo.X, bo.Y} {
+							if c, ok := stripConv(side).(*ssa.Call); ok {
+								if bi, ok := c.Call.Value.(*ssa.Builtin); ok && bi.Name() == "len" && throughPhis(rv, c.Call.Args[0]) {
+									return false
+								}
+							}
+						}
+					}
+				}
+			}
+		}
+		return any
+	}
+	for _, fn := range p.Funcs {
+		for _, b := range fn.Blocks {
+			for _, in := range b.Instrs {
+				st, ok := in.(*ssa.Store)
+				if !ok {
+					continue
+				}
+				tn, f, _ := p.fieldAddr(st.Addr)
+				if tn == "" {
+					continue
+				}
+				if _, isSlice := st.Val.Type().Underlying().(*types.Slice); !isSlice {
+					continue
+				}
+				var call *ssa.Call
+				idx := 0
+				switch x := stripConv(st.Val).(type) {
+				case *ssa.Call:
+					call = x
+				case *ssa.Extract:
+					call, _ = x.Tuple.(*ssa.Call)
+					idx = x.Index
+				}
+				if call != nil && grownResult(call.Common().StaticCallee(), idx) {
+					grown[fkey{strings.TrimPrefix(tn, "*"), f}] = true
+				}
+			}
+		}
+	}
 	candidate := func(tn, f string) bool {
 		tn = strings.TrimPrefix(tn, "*")
 		if _, isWire := t.wire[tn]; isWire {
 			return true
 		}
 		k := fkey{tn, f}
-		return appendOnly[k] && !other[k]
+		return (appendOnly[k] && !other[k]) || grown[k]
 	}
 	// functions that test the length of T.F in a branch condition (range loop conditions excepted)
 	testsLen := func(fn *ssa.Function, tn, f string) bool {
